@@ -671,6 +671,9 @@ func c13KMAC(run *mon.Run) {
 	negs := []int{-1, -2, -3, -1000, math.MinInt, math.MinInt + 1, math.MinInt + 2}
 	for k := 2; k < 63; k++ {
 		negs = append(negs, -1<<k, -1<<k+1, -1<<k-1)
+		if k < 61 {
+			negs = append(negs, -3<<k, -5<<k, -7<<(k-1))
+		}
 	}
 	for _, sz := range negs {
 		if sz >= 0 {
